@@ -6,6 +6,7 @@ import (
 	"fmt"
 	"os"
 	"path/filepath"
+	"regexp"
 	"sort"
 	"strings"
 	"sync"
@@ -52,6 +53,9 @@ type Job struct {
 	Setup           func(it *Interp)             // before the entry runs
 	EntryFn         func(it *Interp) *ssa.Function // engine-side entry selection (closure/region units)
 	Run             func(it *Interp)             // engine-side harness body (replaces Entry)
+	Probe           func(it *Interp, fn *ssa.Function, name string, v Value) bool
+	OnJSONUnmarshal func(it *Interp, dst *IfaceV)
+	JSONLens        []int
 
 	mu  sync.Mutex
 	res JobResult
@@ -226,7 +230,7 @@ func runPath(prog *ssa.Program, j *Job, ctx *Ctx, sol *Solver, prefix []int) (al
 	sol.lastErr = ""
 	it := &Interp{prog: prog, ctx: ctx, sol: sol, job: j, prefix: prefix,
 		globals: map[*ssa.Global]*Cell{}, initDone: map[*ssa.Package]bool{}, names: map[string]int{},
-		mutex: map[*Cell]int{}, covers: map[string]bool{}, unwind: map[*ssa.BasicBlock]int{}, fs: newFS(), ghost: map[string]Value{}}
+		mutex: map[*Cell]int{}, covers: map[string]bool{}, unwind: map[*ssa.BasicBlock]int{}, fs: newFS(), ghost: map[string]Value{}, funcs: map[string]bool{}, probes: map[string]Value{}}
 	outcome := "ok"
 	detail := ""
 	var gp *goPanic
@@ -268,13 +272,13 @@ func runPath(prog *ssa.Program, j *Job, ctx *Ctx, sol *Solver, prefix []int) (al
 	if outcome == "panic" && !j.PanicOK {
 		r, m := sol.Check(true)
 		if r == "sat" {
-			it.violations = append(it.violations, Violation{Msg: detail, Site: gp.site, Model: m, Kind: "panic", Decisions: append([]int{}, it.taken...)})
+			it.violations = append(it.violations, Violation{Msg: detail, Site: gp.fn, Model: m, Kind: "panic", Decisions: append([]int{}, it.taken...)})
 		}
 	}
 	if outcome == "blocked" && !j.BlockedOK {
 		r, m := sol.Check(true)
 		if r == "sat" {
-			it.violations = append(it.violations, Violation{Msg: detail, Site: it.curSite, Model: m, Kind: "blocked", Decisions: append([]int{}, it.taken...)})
+			it.violations = append(it.violations, Violation{Msg: detail, Site: it.curFn, Model: m, Kind: "blocked", Decisions: append([]int{}, it.taken...)})
 		}
 	}
 	for i := range it.violations {
@@ -294,6 +298,9 @@ func runPath(prog *ssa.Program, j *Job, ctx *Ctx, sol *Solver, prefix []int) (al
 	}
 	for _, n := range it.notes {
 		j.res.Notes[n]++
+	}
+	for f := range it.funcs {
+		j.res.Funcs[f] = true
 	}
 	j.res.Queries += it.nQueries
 	j.res.Steps += int64(it.steps)
@@ -425,6 +432,22 @@ func harnessOverlay(pkgDirs []string) map[string][]byte {
 				}
 			}
 		}
+		// registry of harness entry points (for the native replay driver)
+		var reg strings.Builder
+		fmt.Fprintf(&reg, "package %s\n\nvar vHarnesses = map[string]func(){\n", pkgName)
+		for _, e := range ents {
+			if !strings.HasSuffix(e.Name(), ".go") || strings.HasSuffix(e.Name(), "_test.go") {
+				continue
+			}
+			b, _ := os.ReadFile(filepath.Join(hd, e.Name()))
+			for _, m := range harnessFuncRe.FindAllStringSubmatch(string(b), -1) {
+				fmt.Fprintf(&reg, "\t%q: %s,\n", m[1], m[1])
+			}
+		}
+		reg.WriteString("}\n")
+		if pkgName != "" {
+			ov[filepath.Join(repoDir(), pd, "zz_verif_reg.go")] = []byte(reg.String())
+		}
 		rt, err := os.ReadFile(filepath.Join(verifDir(), "harness", "zz_verif_rt.go.tmpl"))
 		if err == nil && pkgName != "" {
 			ov[filepath.Join(repoDir(), pd, "zz_verif_rt.go")] = []byte(strings.Replace(string(rt), "package PKG", "package "+pkgName, 1))
@@ -432,6 +455,8 @@ func harnessOverlay(pkgDirs []string) map[string][]byte {
 	}
 	return ov
 }
+
+var harnessFuncRe = regexp.MustCompile(`(?m)^func (H_\w+)\(\)`)
 
 func fileSum(p string) string {
 	b, err := os.ReadFile(p)
